@@ -1,0 +1,100 @@
+//go:build verif
+
+package dns
+
+// Add-only exports for the /verif checks of properties C06 and C07 (zone text
+// lexer and parser). Nothing here changes behaviour; with the build tag off
+// the file does not exist for the compiler.
+
+import (
+	"errors"
+	"io"
+	"strings"
+)
+
+// VerifTok is one token as returned by zlexer.Next, plus zlexer.Comment() as it
+// stands right after that call.
+type VerifTok struct {
+	Value   uint8
+	Token   string
+	Err     bool
+	Torc    uint16
+	Line    int
+	Column  int
+	Comment string
+}
+
+// VerifLexTokens returns the tokens successive calls of zlexer.Next deliver for
+// the given text (at most max of them).
+func VerifLexTokens(text string, max int) []VerifTok {
+	return VerifLexReader(strings.NewReader(text), max)
+}
+
+// VerifLexReader is VerifLexTokens over any reader.
+func VerifLexReader(r io.Reader, max int) []VerifTok {
+	zl := newZLexer(r)
+	var out []VerifTok
+	for len(out) < max {
+		l, ok := zl.Next()
+		if !ok {
+			break
+		}
+		out = append(out, VerifTok{l.value, l.token, l.err, l.torc, l.line, l.column, zl.comment})
+	}
+	return out
+}
+
+// VerifParseError takes apart a *ParseError (ok is false for any other error).
+// wrapped tells that the message comes from a wrapped error (a failed open).
+func VerifParseError(err error) (file, msg, token string, line, column int, wrapped, ok bool) {
+	var pe *ParseError
+	if !errors.As(err, &pe) {
+		return "", "", "", 0, 0, false, false
+	}
+	return pe.file, pe.err, pe.lex.token, pe.lex.line, pe.lex.column, pe.wrappedErr != nil, true
+}
+
+// VerifStringToTTL is stringToTTL.
+func VerifStringToTTL(s string) (uint32, bool) { return stringToTTL(s) }
+
+// VerifToAbsoluteName is toAbsoluteName.
+func VerifToAbsoluteName(name, origin string) (string, bool) { return toAbsoluteName(name, origin) }
+
+// VerifModToPrintf is modToPrintf.
+func VerifModToPrintf(s string) (string, int64, string) { return modToPrintf(s) }
+
+// VerifGenerateBytes drives a generateReader over the right-hand side s and
+// returns the octets it delivers (at most max) and the *ParseError it ends
+// with, if any.
+func VerifGenerateBytes(s string, start, end, step int64, max int) ([]byte, error) {
+	l := lex{value: zBlank, token: " ", line: 1, column: 0}
+	r := &generateReader{s: s, cur: start, start: start, end: end, step: step, file: "", lex: &l}
+	var out []byte
+	for len(out) < max {
+		b, err := r.ReadByte()
+		if err == io.EOF {
+			return out, nil
+		}
+		if err != nil {
+			return out, err
+		}
+		out = append(out, b)
+	}
+	return out, nil
+}
+
+// VerifTypeClassTables returns StringToType, StringToClass and the registered
+// type codes (keys of TypeToRR).
+func VerifTypeClassTables() (map[string]uint16, map[string]uint16, []uint16) {
+	var reg []uint16
+	for t := range TypeToRR {
+		reg = append(reg, t)
+	}
+	return StringToType, StringToClass, reg
+}
+
+// VerifMaxIncludeDepth is maxIncludeDepth.
+const VerifMaxIncludeDepth = maxIncludeDepth
+
+// VerifMaxTok is maxTok.
+const VerifMaxTok = maxTok
